@@ -2,12 +2,12 @@
 # usage: intake_seed.sh <Cnn> [check ids...]  - verify a seeded change delivered as /tmp/wt/<Cnn>/_seeded/{patch.diff,demo.py}
 # on clean scratch copies of /repo (never relies on the state of the worktree; never touches /repo)
 id="$1"; shift; checks="${*:-$id}"
-src=/tmp/wt/$id/_seeded
+base=${WT_BASE:-/tmp/wt}; src=$base/$id/_seeded
 s=/tmp/intake_$id; rm -rf $s; mkdir -p $s/clean $s/mut
 for d in clean mut; do (cd /repo && tar cf - --exclude=.git --exclude=__pycache__ --exclude=examples --exclude=docs --exclude=gallery --exclude=figs .) | (cd $s/$d && tar xf -); done
 patch -p1 -s -d $s/mut -i $src/patch.diff || { echo "PATCH DOES NOT APPLY"; exit 2; }
 echo "== patch: $(grep -c '^[-+][^-+]' $src/patch.diff) changed lines in $(grep '^+++ ' $src/patch.diff | tr '\n' ' ')"
-sed "s|/tmp/wt/$id|$s/mut|g" $src/demo.py > $s/demo_mut.py; sed "s|/tmp/wt/$id|$s/clean|g" $src/demo.py > $s/demo_clean.py
+sed "s|$base/$id|$s/mut|g" $src/demo.py > $s/demo_mut.py; sed "s|$base/$id|$s/clean|g" $src/demo.py > $s/demo_clean.py
 (cd $s/mut && timeout 300 /venv/bin/python $s/demo_mut.py > $s/demo_mut.txt 2>&1); echo "== demo WITH change rc=$? : $(tail -1 $s/demo_mut.txt | cut -c1-200)"
 (cd $s/clean && timeout 300 /venv/bin/python $s/demo_clean.py > $s/demo_clean.txt 2>&1); echo "== demo WITHOUT change rc=$? : $(tail -1 $s/demo_clean.txt | cut -c1-200)"
 for c in $checks; do
